@@ -92,18 +92,20 @@ def strE (S : PrintPrec) : Expr → Nat → Except SErr Pieces
       let ap ← strL S as S.none
       pure (fp ++ [sy "("] ++ joinWith [sy ",", .sp] ap ++ [sy ")"])
   | .callKw f as ns vs, _ => do
-      let fp ← strE S f S.call
+      -- `args_strings` (positional, then keyword values) is built before the callee is printed
       let ap ← strL S as S.none
       let vp ← strL S vs S.none
+      let fp ← strE S f S.call
       let kws := (ns.zip vp).map fun p => (.tok (.ident p.1) : Piece) :: sy "=" :: p.2
       pure (fp ++ [sy "("] ++ joinWith [sy ",", .sp] (ap ++ kws) ++ [sy ")"])
   | .subscript a (.tuple cs), enc => do
-      let ap ← strE S a S.call
+      -- `index_str` is computed before the aggregate is printed
       let ip := joinWith [sy ",", .sp] (← strL S cs S.none)
+      let ap ← strE S a S.call
       pure (parenIf (ap ++ [sy "["] ++ ip ++ [sy "]"]) enc S.call)
   | .subscript a i, enc => do
-      let ap ← strE S a S.call
       let ip ← strE S i S.none
+      let ap ← strE S a S.call
       pure (parenIf (ap ++ [sy "["] ++ ip ++ [sy "]"]) enc S.call)
   | .lookup a n, enc => do
       let ap ← strE S a S.call
